@@ -247,6 +247,10 @@ class ClosureDesugar(Rewrite):
             recv = text[start:toks[j].start].strip()
             if self.method == 'and_then':
                 new = f'(match {recv} {{ Some({param}) => {body}, None => None }})'
+            elif self.method == 'is_some_and':
+                new = f'(match {recv} {{ Some({param}) => {body}, None => false }})'
+            elif self.method == 'is_none_or':
+                new = f'(match {recv} {{ Some({param}) => {body}, None => true }})'
             else:
                 new = f'(match {recv} {{ Some({param}) => Some({body}), None => None }})'
             text = text[:start] + new + text[toks[close].end:]
